@@ -24,6 +24,19 @@ namespace fastscapelib
             if (f)
                 f(id, who);
         }
+        // spurious wake-ups: std::condition_variable::wait may return without a notification; the
+        // harness installs a callback that says whether the next wait of worker `who` does so
+        using spurious_hook_type = bool (*)(std::size_t who);
+        inline std::atomic<spurious_hook_type>& spurious_hook()
+        {
+            static std::atomic<spurious_hook_type> h{ nullptr };
+            return h;
+        }
+        inline bool spurious(std::size_t who)
+        {
+            spurious_hook_type f = spurious_hook().load();
+            return f ? f(who) : false;
+        }
     }
 }
 #define FS_VERIF_POINT(id, who) ::fastscapelib::verif::point(id, who)
@@ -63,6 +76,9 @@ namespace fastscapelib
                 std::unique_lock<std::mutex> lk(m_cv_m);
                 ++m_paused_count;
                 FS_VERIF_POINT(1, i);
+#ifdef FASTSCAPELIB_VERIF_HOOKS
+                if (!::fastscapelib::verif::spurious(i))
+#endif
                 m_cv.wait(lk);
                 FS_VERIF_POINT(2, i);
                 --m_paused_count;
